@@ -35,6 +35,8 @@ def pkg_dir(demo_text):
     if pkg.startswith("disasm"):
         return "cmd/seccomp-profiler/disasm"
     if pkg == "main":
+        if "seccomp-profiler" in demo_text.split("package main")[0] or "doObjdump" in demo_text or "cachedDumpFile" in demo_text:
+            return "cmd/seccomp-profiler"
         return "cmd/sandbox" if "cmd/sandbox" in demo_text else "cmd/seccomp-profiler"
     if pkg.startswith("unix"):
         return "internal/unix"
